@@ -157,8 +157,12 @@ class FakeNet:
 # ---------------------------------------------------------------------------
 # the abstract names of Owners.tla and what they stand for on disk
 def real_owner(o):
+    """Owners are containers (unique names) of the two instances the endpoint specs
+    belong to - odd ones of proid.web#1, even ones of proid.db#7 - so that two live
+    containers of ONE instance can ask for the same spec."""
     k = int(o[1:])
-    return 'proid.svc%d-%010d-uniq%09d' % (k, k, k)
+    base, inst = ('proid.web', 1) if k % 2 else ('proid.db', 7)
+    return '%s-%010d-uniq%09d' % (base, inst, k)
 
 
 APPS = {'a1': 'proid.web#0000000001', 'a2': 'proid.db#0000000007'}
